@@ -6,14 +6,19 @@
 (* checker / the symbolic encoding:                                                                      *)
 (*   - Tok is a function Str -> record instead of a record of records;                                   *)
 (*   - RECURSIVE Mark / Flat / AddSeq are folds (ApaFoldSeqLeft) that compute the same values;           *)
-(*   - removals take the SET of removed tokens (the MC model only ever uses SeqSet(q) of its sequences   *)
-(*     of length 1 or 2); `act` keeps op / res / gid / the token set (what the action properties read).  *)
-(* Proof obligations (harness/crv/apalache.py):                                                          *)
-(*   (1) Init => IndInv            --init=Init    --inv=IndInv  --length=0                               *)
-(*   (2) IndInv /\ Next => IndInv' --init=IndInit --inv=IndInv  --length=1                               *)
-(*   (3) IndInv => Inv*            --init=IndInit --inv=PropInv --length=0                               *)
-(*   (3') IndInv /\ Next => action properties  --init=IndInit --inv=PropAct --length=1                   *)
-(* Deviation constants are chosen by --cinit (CInit: all FALSE; CInitDev1..4: exactly one TRUE).         *)
+(*   - the token table Tok (and its projections IDS, KIND) are CONSTANTS initialised by TokInit in every       *)
+(*     CInit*: the symbolic encoding then builds each table once instead of once per mention;                   *)
+(*   - removals take the SET of removed tokens next to the sequence (MC: SeqSet(q), q of length 1 or 2);         *)
+(*   - PropRefines == [][Conforms(Exp(s, act'))]_vars is observed through the Boolean `refOk` that every         *)
+(*     action sets from ITS OWN Exp<Op> (switched on only in NextRef, see NextP).                                *)
+(* Proof obligations (harness/crv/apalache.py), all with --cinit=CInit:                                          *)
+(*   (1)   Init => IndInv                  --init=Init    --inv=IndInv  --length=0                               *)
+(*   (2)   IndInv /\ Next => IndInv'       --init=IndInit --inv=IndInv  --length=1                               *)
+(*   (3)   IndInv => PropInv               --init=IndInit --inv=PropInv --length=0   Unique, PoolExact, ReAddable *)
+(*   (3')  IndInv /\ Next => PropAct       --init=IndInit --inv=PropAct --length=1   GenFresh, RejectAtomic       *)
+(*   (3'') IndInv /\ NextRef => refOk'     --init=IndInit --next=NextRef --inv=InvRefines --length=1  (optional,   *)
+(*         slow: Impl => Contract for every step from every IndInv state)                                        *)
+(* Deviation constants are chosen by --cinit (CInit: all FALSE; CInitDev1..4: exactly one TRUE).                 *)
 EXTENDS Integers, Sequences, FiniteSets, Apalache
 
 (*
@@ -229,18 +234,21 @@ Act(op, toks, ref, res) == [op |-> op, toks |-> toks, ref |-> ref, res |-> res, 
 Conforms(e) == /\ e.res \in {act'.res, "any"}
                /\ e.any \/ Shape(s') \in {Shape(p) : p \in e.posts}
 
+\* @type: (Bool, $out) => Bool;
+Ref(chk, e) == refOk' = (IF chk THEN Conforms(e) ELSE TRUE)
+
 Init == s = Empty /\ idSet = {} /\ cnt = -1 /\ act = Act("init", <<>>, 0, "ok") /\ refOk = TRUE
 
-AddObj(n) ==
+AddObj(chk, n) ==
     LET m == Mark(IdSeq(n), idSet) IN
     /\ cnt' = FirstCntObj(n)
     /\ IF m[1] /\ NoDupInc(n)
        THEN /\ s' = AddObjState(s, n) /\ idSet' = m[2] /\ act' = Act("add", <<n>>, 0, "ok")
        ELSE /\ s' = s /\ act' = Act("add", <<n>>, 0, "ValueError")
             /\ idSet' = IF DEV_PartialIntersection THEN m[2] ELSE idSet
-    /\ refOk' = Conforms(ExpAddObj(s, n))
+    /\ Ref(chk, ExpAddObj(s, n))
 
-AddNet(N) ==
+AddNet(chk, N) ==
     LET m == MarkNet(N, idSet) IN
     /\ NetPart(s.C) = {} \/ DEV_AddNetOnNonEmpty
     /\ cnt' = FirstCntNet(N)
@@ -249,54 +257,54 @@ AddNet(N) ==
             /\ idSet' = m[2] /\ act' = Act("add", <<N>>, 0, "ok")
        ELSE /\ s' = s /\ act' = Act("add", <<N>>, 0, "ValueError")
             /\ idSet' = IF DEV_PartialNetwork THEN m[2] ELSE idSet
-    /\ refOk' = Conforms(ExpAddNet(s, N))
+    /\ Ref(chk, ExpAddNet(s, N))
 
-AddList(a, b) ==
+AddList(chk, a, b) ==
     LET r == AddSeq(s, <<a, b>>) IN
     /\ s' = r[1] /\ idSet' = idSet \cup Used(r[1].C) /\ cnt' = FirstCntObj(a)
     /\ act' = Act("add_list", <<a, b>>, 0, IF r[2] THEN "ok" ELSE "ValueError")
-    /\ refOk' = Conforms(ExpAddList(s, <<a, b>>))
+    /\ Ref(chk, ExpAddList(s, <<a, b>>))
 
 Release(ns, list) ==
     UNION {IF KIND[n] = "inter" /\ list /\ DEV_ListRemoveInterKeepsIncoming THEN {Tok[n].id} ELSE IdsObj(n) : n \in ns}
 
-RemoveSimple(op, kinds, ns, q, list) ==
+RemoveSimple(chk, op, kinds, ns, q, list) ==
     /\ ns \subseteq s.C /\ \A n \in ns : KIND[n] \in kinds
     /\ s' = RemoveState(s, ns) /\ idSet' = idSet \ Release(ns, list) /\ UNCHANGED cnt
     /\ act' = Act(op, q, IF list THEN 1 ELSE 0, "ok")
-    /\ refOk' = Conforms(ExpRemove(s, ns))
+    /\ Ref(chk, ExpRemove(s, ns))
 
-RemoveLanelet(Ls, q, ref) ==
+RemoveLanelet(chk, Ls, q, ref) ==
     LET h == IF ref THEN Hanging(s, Ls, "sign", s.sg) \cup Hanging(s, Ls, "light", s.lt) ELSE {}
     IN /\ Ls \subseteq s.C /\ \A n \in Ls : KIND[n] = "lanelet"
        /\ s' = RemoveState(s, Ls \cup h) /\ idSet' = idSet \ Release(Ls \cup h, TRUE) /\ UNCHANGED cnt
        /\ act' = Act("remove_lanelet", q, IF ref THEN 1 ELSE 0, "ok")
-       /\ refOk' = Conforms(ExpRemoveLanelet(s, Ls, ref))
+       /\ Ref(chk, ExpRemoveLanelet(s, Ls, ref))
 
-Erase == /\ s' = RemoveState(s, NetPart(s.C)) /\ idSet' = idSet \ Release(NetPart(s.C), FALSE) /\ UNCHANGED cnt
+Erase(chk) == /\ s' = RemoveState(s, NetPart(s.C)) /\ idSet' = idSet \ Release(NetPart(s.C), FALSE) /\ UNCHANGED cnt
          /\ act' = Act("erase", <<>>, 0, "ok")
-         /\ refOk' = Conforms(ExpErase(s))
+         /\ Ref(chk, ExpErase(s))
 
-Replace(N) ==
+Replace(chk, N) ==
     LET e  == RemoveState(s, NetPart(s.C))
         S1 == idSet \ Release(NetPart(s.C), FALSE)
         m  == MarkNet(N, S1)
     IN /\ UNCHANGED cnt
        /\ IF m[1] THEN s' = NetState(e, N) /\ idSet' = m[2] /\ act' = Act("replace", <<N>>, 0, "ok")
           ELSE s' = e /\ idSet' = (IF DEV_PartialNetwork THEN m[2] ELSE S1) /\ act' = Act("replace", <<N>>, 0, "ValueError")
-       /\ refOk' = Conforms(ExpReplace(s, N))
+       /\ Ref(chk, ExpReplace(s, N))
 
 \* generate_object_id: NO MaxGen guard
-Gen1 == LET c0 == IF cnt = -1 THEN 0 ELSE cnt
+Gen1(chk) == LET c0 == IF cnt = -1 THEN 0 ELSE cnt
             c1 == IF idSet = {} THEN c0 ELSE IF Max(idSet) > c0 THEN Max(idSet) ELSE c0
         IN /\ cnt' = c1 + 1 /\ s' = [s EXCEPT !.gen = @ \cup {c1 + 1}] /\ UNCHANGED idSet
            /\ act' = [Act("gen", <<>>, 0, "ok") EXCEPT !.gid = c1 + 1]
-           /\ refOk' = Conforms(Outcome("ok", {s}, FALSE))
+           /\ Ref(chk, Outcome("ok", {s}, FALSE))
 
-RemoveAbsent(n, list) ==
+RemoveAbsent(chk, n, list) ==
     /\ n \notin s.C /\ KIND[n] \in ObsKinds
     /\ UNCHANGED <<s, idSet, cnt>> /\ act' = Act("remove_absent", <<n>>, IF list THEN 1 ELSE 0, "ok")
-    /\ refOk' = Conforms(Outcome("ok", {s}, FALSE))
+    /\ Ref(chk, Outcome("ok", {s}, FALSE))
 
 OfKind(ks) == {n \in s.C : KIND[n] \in ks}
 
@@ -304,21 +312,25 @@ OfKind(ks) == {n \in s.C : KIND[n] \in ks}
 \* a = b stands for the one-element sequence
 \* @type: (Str, Str) => Seq(Str);
 Q(a, b) == IF a = b THEN <<a>> ELSE <<a, b>>
-Next ==
-    \/ \E n \in Objs : AddObj(n)
-    \/ \E N \in Nets : AddNet(N) \/ Replace(N)
-    \/ \E a, b \in Objs : a # b /\ a \notin s.C /\ b \notin s.C /\ AddList(a, b)
+\* chk is the literal TRUE / FALSE: with FALSE the refinement observation is switched off (refOk' = TRUE) and the
+\* expectation of the contract is not even built - obligations (1)-(3') use Next, the refinement obligation uses NextRef
+NextP(chk) ==
+    \/ \E n \in Objs : AddObj(chk, n)
+    \/ \E N \in Nets : AddNet(chk, N) \/ Replace(chk, N)
+    \/ \E a, b \in Objs : a # b /\ a \notin s.C /\ b \notin s.C /\ AddList(chk, a, b)
     \/ \E a, b \in OfKind(ObsKinds) : \E l \in BOOLEAN :
-            (l \/ a = b) /\ RemoveSimple("remove_obstacle", ObsKinds, {a, b}, Q(a, b), l)
-    \/ \E n \in OfKind({"sign"}) : \E l \in BOOLEAN : RemoveSimple("remove_sign", {"sign"}, {n}, <<n>>, l)
-    \/ \E n \in OfKind({"light"}) : \E l \in BOOLEAN : RemoveSimple("remove_light", {"light"}, {n}, <<n>>, l)
-    \/ \E n \in OfKind({"inter"}) : \E l \in BOOLEAN : RemoveSimple("remove_inter", {"inter"}, {n}, <<n>>, l)
-    \/ \E a, b \in OfKind({"inter"}) : a # b /\ RemoveSimple("remove_inter", {"inter", "sign"}, {a, b}, <<a, b>>, TRUE)
-    \/ \E a, b \in OfKind({"sign"}) : a # b /\ RemoveSimple("remove_sign", {"inter", "sign"}, {a, b}, <<a, b>>, TRUE)
-    \/ \E a, b \in OfKind({"lanelet"}) : \E r \in BOOLEAN : RemoveLanelet({a, b}, Q(a, b), r)
-    \/ \E n \in Objs \ s.C : \E l \in BOOLEAN : RemoveAbsent(n, l)
-    \/ Erase
-    \/ Gen1
+            (l \/ a = b) /\ RemoveSimple(chk, "remove_obstacle", ObsKinds, {a, b}, Q(a, b), l)
+    \/ \E n \in OfKind({"sign"}) : \E l \in BOOLEAN : RemoveSimple(chk, "remove_sign", {"sign"}, {n}, <<n>>, l)
+    \/ \E n \in OfKind({"light"}) : \E l \in BOOLEAN : RemoveSimple(chk, "remove_light", {"light"}, {n}, <<n>>, l)
+    \/ \E n \in OfKind({"inter"}) : \E l \in BOOLEAN : RemoveSimple(chk, "remove_inter", {"inter"}, {n}, <<n>>, l)
+    \/ \E a, b \in OfKind({"inter"}) : a # b /\ RemoveSimple(chk, "remove_inter", {"inter", "sign"}, {a, b}, <<a, b>>, TRUE)
+    \/ \E a, b \in OfKind({"sign"}) : a # b /\ RemoveSimple(chk, "remove_sign", {"inter", "sign"}, {a, b}, <<a, b>>, TRUE)
+    \/ \E a, b \in OfKind({"lanelet"}) : \E r \in BOOLEAN : RemoveLanelet(chk, {a, b}, Q(a, b), r)
+    \/ \E n \in Objs \ s.C : \E l \in BOOLEAN : RemoveAbsent(chk, n, l)
+    \/ Erase(chk)
+    \/ Gen1(chk)
+Next    == NextP(FALSE)
+NextRef == NextP(TRUE)
 
 (* ---- the contract (MC_ScenarioStore.tla) ------------------------------------------------------------- *)
 InvUnique    == Unique(s.C)
@@ -330,7 +342,7 @@ ActGenFresh     == act'.op = "gen" => GenOk(s, act'.gid)
 ActRejectAtomic == (act'.op = "add" /\ act'.res = "ValueError") => (s' = s /\ idSet' = idSet)
 PropAct         == ActGenFresh /\ ActRejectAtomic
 \* refinement: every step of the implementation model is a step the contract allows
-InvRefines == refOk          \* read at the state AFTER the one step from IndInit: --inv=InvRefines --length=1
+InvRefines == refOk          \* read at the state AFTER the one step from IndInit: --next=NextRef --inv=InvRefines --length=1
 
 (* ---- the inductive invariant ------------------------------------------------------------------------- *)
 Ops == {"init", "add", "add_list", "remove_obstacle", "remove_sign", "remove_light", "remove_inter",
